@@ -55,12 +55,46 @@ def _functions(tree):
     return out
 
 
+class _NoDefs(ast.NodeTransformer):
+    """function bodies out (they have their own entries); decorators, signatures and everything declared beside them stay"""
+
+    def _f(self, node):
+        node.body = [ast.Pass()]
+        return node
+
+    visit_FunctionDef = visit_AsyncFunctionDef = _f
+
+
+def _decls(tree):
+    """[(key, digest)] of what is NOT inside a function body: per class its body (fields, defaults, metadata, class attributes,
+    decorators, bases, method signatures) and the module's own statements (constants, imports, __all__)"""
+    out = []
+
+    def dg(node):
+        n = _NoDefs().visit(_Norm().visit(ast.parse(ast.unparse(node))))
+        return hashlib.sha256(ast.dump(n, include_attributes=False).encode()).hexdigest()[:16]
+
+    def walk(node, prefix):
+        for ch in ast.iter_child_nodes(node):
+            if isinstance(ch, ast.ClassDef):
+                out.append((f'<decl>:{prefix}{ch.name}', dg(ch), ch.lineno))
+                walk(ch, prefix + ch.name + '.')
+    walk(tree, '')
+    mod = ast.Module(body=[n for n in tree.body if not isinstance(n, (ast.ClassDef, ast.FunctionDef, ast.AsyncFunctionDef))],
+                     type_ignores=[])
+    out.append(('<decl>:<module>', dg(mod), 1))
+    return out
+
+
 def scan_file(path):
-    """{qualname: {digest, lo, hi, src: [lines]}} of one source file; nested defs are also part of their parent's text"""
+    """{qualname: {digest, lo, hi, src: [lines]}} of one source file; nested defs are also part of their parent's text.
+    Keys '<decl>:Class' / '<decl>:<module>' carry the digest of the declarations outside function bodies."""
     text = open(path).read()
     lines = text.split('\n')
     tree = ast.parse(text)
     res = {}
+    for k, d, ln in _decls(tree):
+        res[k] = {'digest': d, 'lo': ln, 'hi': ln, 'src': []}
     for q, node in _functions(tree):
         lo = min([node.lineno] + [d.lineno for d in node.decorator_list])
         hi = node.end_lineno
@@ -93,10 +127,10 @@ def compare(pid, repo):
     exist then (they can only be reached from changed code)."""
     rp = os.path.join(REACH_DIR, pid + '.json')
     if not (os.path.exists(FP_FILE) and os.path.exists(rp)):
-        return {'changed': [], 'gone': [], 'recorded': False}
+        return {'changed': [], 'gone': [], 'decls': [], 'recorded': False}
     rec = json.load(open(FP_FILE))
     reach = json.load(open(rp))
-    changed, gone = [], []
+    changed, gone, decls = [], [], []
     for rel in sorted(set(reach) | set(rec)):
         path = os.path.join(repo, rel)
         if rel not in reach and rel in rec:
@@ -110,7 +144,13 @@ def compare(pid, repo):
             gone.append(f'{rel}: does not parse ({e})')
             continue
         old = rec.get(rel, {})
-        watch = set(reach.get(rel, [])) | {q for q in cur if q not in old}
+        if rel in reach:
+            # declarations outside function bodies (class fields / metadata / attributes, module constants) of the files
+            # the property's run executes: a change there escalates the run (there is no line to cover: they run at import)
+            for q in sorted(k for k in set(cur) | set(old) if k.startswith('<decl>:')):
+                if (cur.get(q) or {}).get('digest') != (old.get(q) or {}).get('digest') and any(k.startswith('<decl>:') for k in old):
+                    decls.append(f'{rel}::{q[7:]}')
+        watch = {q for q in set(reach.get(rel, [])) | {q for q in cur if q not in old} if not q.startswith('<decl>:')}
         for q in sorted(watch):
             if q not in cur:
                 if q in old:
@@ -134,7 +174,7 @@ def compare(pid, repo):
             changed.append({'file': rel, 'qualname': q, 'lo': c['lo'], 'hi': c['hi'], 'lines': lines,
                             'entry': body[0] if body else c['lo'], 'new': q not in old})
     # a nested def is inside its parent's range: keep the parent's changed lines only where they are not the child's
-    return {'changed': changed, 'gone': gone, 'recorded': True}
+    return {'changed': changed, 'gone': gone, 'decls': decls, 'recorded': True}
 
 
 def arm(changed, repo, mode='lines'):
